@@ -770,7 +770,13 @@ func Eval(c *core.Ctx, line string) *core.Case {
 	return nil
 }
 
+// add evaluates one generated line.  Every line is a unit of the sharded run (core.Ctx.NextMine): the scenarios are
+// real-time (each waits out its timeouts, a Session.Close sleeps a second) and independent of one another, so the
+// shards of ./check run a third of them each, side by side in separate processes (icmpTable is process-wide).
 func add(c *core.Ctx, class, line string) {
+	if !c.NextMine() {
+		return
+	}
 	if cs := Eval(c, line); cs != nil {
 		cs.Class = class
 		c.Add(*cs)
@@ -862,6 +868,10 @@ func Gen(c *core.Ctx) {
 		// a reply long after the timeout (400 ms) does not complete the call; measured default: argument 0 and an
 		// argument above 10 s last two seconds when nothing is received
 		"p0:4:400,w1000,e0", "p0:6:400,w1000,e0", "p0:4:0,p1:6:20000",
+		// the upper end of the accepted range, 10 s exactly, is a timeout of ten seconds and not the default: a reply
+		// parsed after 2.3 s completes both calls (bO: `timeout >= 10 s` in Ping6 went unnoticed - every scenario with
+		// the argument 10000 was answered after 40 ms, which the default of two seconds allows as well)
+		"p0:4:10000,p1:6:10000,w2300,e0,e1",
 	} {
 		add(c, "fixed", "ping.trace 0 scn="+s)
 	}
@@ -876,7 +886,9 @@ func Gen(c *core.Ctx) {
 		add(c, "random", "ping.trace 0 scn="+genScenario(c, 2+c.Rnd.Intn(4)))
 	}
 	n += genMulti(c)
-	c.Res.Extra["traces_validated_against_impl"] = n + 28
+	if c.First() {
+		c.Res.Extra["traces_validated_against_impl"] = n + 29
+	}
 }
 
 var Runner = core.Runner{Gen: Gen, Eval: Eval}
